@@ -453,7 +453,7 @@ def run_histories(spec, acc, kind, sigprefix):
             continue
         acc.n['validated'] += 1
         if r[0] == 'violation':
-            if r[1] == kind:
+            if r[1] == kind or r[1].startswith(kind + '-'):
                 acc.violation(sigprefix + r[1], ('h', depth, idx), {'history': list(h)}, r[2], key=str(list(h)))
             continue
         acc.n['transitions'] += r[2]
